@@ -87,8 +87,8 @@ Print Assumptions C18_splitlines_spec.
    or CR, stream ending after the blank line / after the last line's terminator / right after the last line, and
    EVERY chunking of its UTF-8 encoding: one event per block, data lines joined by "\n", comments ignored, last
    event/id/retry wins — provided [guard]: no CR/LF inside a line and retry all digits (domain of the format),
-   none of U+000B, U+000C, U+001C-1E, U+0085, U+2028, U+2029 in a line [F18a], no comment-only block [F18c].
-   [spec_events bs] = one [expected] event per block that has a field line.  (Field values may start with white
+   none of U+000B, U+000C, U+001C-1E, U+0085, U+2028, U+2029 in a line [F18a].
+   [spec_events bs] = one [expected] event per block that has a field line (comment-only blocks carry none: F18c, fixed).  (Field values may start with white
    space: F18b is fixed, see C18_regression_F18b.)  [py_int] is any function that reads digit strings as Python's int() does. *)
 Theorem C18_partial : forall (py_int : str -> option Z),
   (forall ds, ds <> [] -> forallb is_digit ds = true -> py_int ds = Some (digits_val ds)) ->
@@ -130,7 +130,7 @@ Proof. exact ndjson_roundtrip. Qed.
 Print Assumptions C18_ndjson_roundtrip.
 
 Theorem C18_refuted_F18a :
-  guard_dom bs_F18a = true /\ guard_F18a bs_F18a = false /\ guard_F18c bs_F18a = true /\
+  guard_dom bs_F18a = true /\ guard_F18a bs_F18a = false /\
   forall py_int, sse_of_lines py_int (splitlines (encode LF TFull bs_F18a)) <> spec_events bs_F18a.
 Proof. exact refuted_F18a. Qed.
 Print Assumptions C18_refuted_F18a.
@@ -142,12 +142,14 @@ Theorem C18_refuted_F18a_ndjson :
 Proof. exact refuted_F18a_ndjson. Qed.
 Print Assumptions C18_refuted_F18a_ndjson.
 
-(* "comments ignored" is violated by a comment-only (keep-alive) block: it is delivered as an event with empty data *)
-Theorem C18_refuted_F18c :
-  guard_dom bs_F18c = true /\ guard_F18a bs_F18c = true /\ guard_F18c bs_F18c = false /\
-  forall py_int, sse_of_lines py_int (splitlines (encode LF TFull bs_F18c)) <> spec_events bs_F18c.
-Proof. exact refuted_F18c. Qed.
-Print Assumptions C18_refuted_F18c.
+(* regression for the fixed F18c: a comment-only (keep-alive) block delivers nothing *)
+Theorem C18_regression_F18c : forall py_int,
+  guard bs_F18c = true /\
+  sse_of_lines py_int (splitlines (encode LF TFull bs_F18c)) = spec_events bs_F18c /\
+  length (spec_events bs_F18c) = 1%nat /\
+  sse_of_lines py_int (splitlines (encode CRLF TLine [[IComment []]])) = [].
+Proof. exact regression_F18c. Qed.
+Print Assumptions C18_regression_F18c.
 
 (* regression for the fixed F18b: leading white space of a field value is payload *)
 Theorem C18_regression_F18b : forall py_int,
